@@ -25,8 +25,8 @@ def obligations(tier):
               encodes=['recognizers_date_time.date_time.base_time:BaseTimeParser.match_to_time'],
               stubs=['FakeMatch (named groups only)', 'digit placeholders for group texts; int() patched in base_time'])]
     obs.append(Ob('O7.3-to_pm', 'sx', 'harness.C07:h_to_pm', slices=[{'has_min': a, 'has_sec': b} for a, b in ((0, 0), (1, 0), (1, 1))], timeout=t,
-                  descr='second reading: to_pm / all_str_to_pm add exactly 12 hours (12 -> 00) in values, timexes, date-times and ranges; durations untouched',
-                  bounds='h 1..12, m,s 0..59', encodes=[U + 'to_pm', U + 'all_str_to_pm']))
+                  descr='second reading: to_pm / all_str_to_pm move the hour to the other half of the day (h+12 below 12, h-12 from 12 on: always 0..23) in values, timexes, date-times and ranges; durations untouched',
+                  bounds='h 0..23, m,s 0..59', encodes=[U + 'to_pm', U + 'all_str_to_pm']))
     obs.append(Ob('O7.5-formatters', 'sx', 'harness.C07:h_short_time', timeout=t,
                   descr='short_time / format_short_time / luis_time / format_time / luis_date_time render the given h:m:s',
                   bounds='h 0..23, m,s 0..59, both flags', encodes=[U + 'short_time', U + 'format_short_time', U + 'luis_time', U + 'format_time', U + 'luis_date_time']))
